@@ -21,6 +21,7 @@ type sym struct {
 	EH   bool
 	W    int  // window update flavour: 0 zero, 1 small, 2 exactly to 2^31-1, 3 beyond
 	Self bool // priority depends on itself
+	XF   bool // the frame carries flag bits that are not defined for its type (0x1 and 0x4 on PRIORITY / WINDOW_UPDATE, 0x8 on PING): they must be ignored (RFC 7540 4.1)
 }
 
 func (s sym) String() string {
@@ -34,13 +35,22 @@ func (s sym) String() string {
 	case 'R':
 		return fmt.Sprintf("R%d", s.ID)
 	case 'W':
+		if s.XF {
+			return fmt.Sprintf("W%d[%s,undefined-flags]", s.ID, []string{"0", "n", "toMax", "beyond"}[s.W])
+		}
 		return fmt.Sprintf("W%d[%s]", s.ID, []string{"0", "n", "toMax", "beyond"}[s.W])
 	case 'P':
 		if s.Self {
 			return fmt.Sprintf("P%d[self]", s.ID)
 		}
+		if s.XF {
+			return fmt.Sprintf("P%d[undefined-flags]", s.ID)
+		}
 		return fmt.Sprintf("P%d", s.ID)
 	case 'p':
+		if s.XF {
+			return "PING[undefined-flags]"
+		}
 		return "PING"
 	case 's':
 		return "SETTINGS"
@@ -81,6 +91,7 @@ func c08Alphabet() []sym {
 		sym{K: 'R', ID: idEven}, sym{K: 'W', ID: idEven, W: 1}, sym{K: 'D', ID: idEven, ES: true}, sym{K: 'P', ID: idEven}, sym{K: 'R', ID: idEven + 4},
 		sym{K: 'D', ID: idFresh, ES: true}, sym{K: 'R', ID: idFresh}, sym{K: 'W', ID: idFresh, W: 1}, sym{K: 'P', ID: idFresh}, sym{K: 'P', ID: idLow},
 		sym{K: 'p'}, sym{K: 's'}, sym{K: 'w'}, sym{K: 'u'},
+		sym{K: 'P', ID: idA, XF: true}, sym{K: 'W', ID: idA, W: 1, XF: true}, sym{K: 'p', XF: true},
 	)
 	return a
 }
@@ -403,6 +414,9 @@ func reqBlock(p *rt.Peer, id uint32, tag string) []byte {
 func (g *c08Gen) bytesFor(p *rt.Peer, m *model, f sym, caseID string, seq int) []byte {
 	switch f.K {
 	case 'p':
+		if f.XF {
+			return wire.Frame(nil, wire.TPing, 0x8|0x4, 0, []byte("c08ping!"), -1)
+		}
 		return rt.Ping(false, "c08ping!")
 	case 's':
 		return rt.SettingsFrame()
@@ -416,6 +430,11 @@ func (g *c08Gen) bytesFor(p *rt.Peer, m *model, f sym, caseID string, seq int) [
 		dep := uint32(1)
 		if f.Self {
 			dep = f.ID
+		}
+		if f.XF {
+			b := rt.Priority(f.ID, dep, false, 10)
+			b[4] |= 0x1 | 0x4 // END_STREAM / END_HEADERS bit positions: meaningless on PRIORITY
+			return b
 		}
 		return rt.Priority(f.ID, dep, false, 10)
 	case 'W':
@@ -437,6 +456,11 @@ func (g *c08Gen) bytesFor(p *rt.Peer, m *model, f sym, caseID string, seq int) [
 		}
 		if inc > 1<<31-1 {
 			inc = 1<<31 - 1
+		}
+		if f.XF {
+			b := rt.WindowUpdate(f.ID, uint32(inc))
+			b[4] |= 0x1 | 0x4
+			return b
 		}
 		return rt.WindowUpdate(f.ID, uint32(inc))
 	case 'D':
